@@ -5,7 +5,9 @@ import FnGraphVerif.Model.Build
 import FnGraphVerif.Model.Topo
 namespace FG
 
-def FnGraph.iter (G : FnGraph) : List Nat := topo G.struct          -- iter, toposort
+def FnGraph.iter (G : FnGraph) : List Nat := topo G.struct          -- iter
+/-- `toposort()` is a `Topo` initialised on `graph_structure`; callers walk it over the public `graph` -/
+def FnGraph.toposort (G : FnGraph) : List Nat := topoAll G.graph (G.graph.n + 1) [] (roots G.struct).reverse
 def FnGraph.iterRev (G : FnGraph) : List Nat := topo G.structRev    -- iter_rev
 def FnGraph.visitOrder (G : FnGraph) : List Nat := topo G.graph     -- map, fold, for_each, try_*
 def FnGraph.iterInsertion (G : FnGraph) : List Nat := List.range G.graph.n
